@@ -545,4 +545,162 @@ def loadDecision (commonOf : Nat → Inp) (np : Int) (dp : Nat) (spread : Bool)
     | some (l, p) => .load true l p
     | none => if adj.length < inv.length then .delay else .evict
 
+/-! ### `GGML.GraphSize` (fs/ggml/ggml.go): the KV-cache sizes and the two graph figures
+
+The estimator's derived inputs `kv[i]`, `graphPartial`, `graphFull` as a function of what `GraphSize`
+reads from the model file.  Every uint64 `+`/`*` wraps (`+ᵤ`, `*ᵤ`, Go's precedence and
+left-associativity); `/` is exact.  `uint64(float64(x) * bytesPerElement)` is modelled in integer
+arithmetic: `float64(x)` rounds to a 53-bit mantissa (ties to even), the factors 2 / 1 / 0.5 are exact,
+the conversion back truncates (amd64: an out-of-range value converts to 2^63). -/
+
+def mulW (a b : Nat) : Nat := wr (a * b)
+def addW (a b : Nat) : Nat := wr (a + b)
+
+local infixl:70 " *ᵤ " => mulW
+local infixl:65 " +ᵤ " => addW
+
+inductive Arch
+  | llama | mllama | gemma | gemma3 | commandR | qwen2 | phi2 | stablelm | deepseek2 | chatglm | other
+  deriving DecidableEq, Repr
+
+/-- what `GraphSize` reads from the model file -/
+structure GMeta where
+  arch : Arch
+  blocks : Nat                 -- KV().BlockCount()
+  embedding : Nat              -- KV().EmbeddingLength()
+  heads : Nat                  -- KV().HeadCount()
+  headsKV : Nat                -- KV().HeadCountKV()  (default 1)
+  keyLen : Option Nat          -- attention.key_length
+  valLen : Option Nat          -- attention.value_length
+  vocab : Nat                  -- len(tokenizer.ggml.tokens)
+  ffnGateExps : Option Nat     -- layers["blk.0"]["ffn_gate_exps.weight"].Size()       (llama: mixtral 8x22b)
+  ff : Nat                     -- llama.feed_forward_length
+  ffnGate1 : Option Nat        -- layers["blk.0"]["ffn_gate.0.weight"].Shape[1]        (llama: mixtral 8x7b)
+  cross : List Nat             -- attention.cross_attention_layers                     (mllama)
+  ropeFreqs : Nat              -- parameters of rope_freqs.weights, 0 if absent        (mllama)
+  sliding : Nat                -- attention.sliding_window                             (gemma3)
+  qkvBias : Option Nat         -- layers["blk.0"]["attn_qkv.bias"].Shape[0]            (chatglm)
+  deriving Repr
+
+/-- `float64(x)` for a uint64 `x`, as an integer: round to 53 significant bits, ties to even -/
+def roundF64 (x : Nat) : Nat :=
+  if x < 9007199254740992 then x
+  else
+    let e := Nat.log2 x - 52
+    let q := x >>> e
+    let r := x % 2 ^ e
+    let half := 2 ^ (e - 1)
+    let q' := if r > half || (r == half && q % 2 == 1) then q + 1 else q
+    q' <<< e
+
+/-- float64 → uint64 conversion of a non-negative integral-or-half value (already floored) -/
+def toU64 (v : Nat) : Nat := if v ≥ 18446744073709551616 then 9223372036854775808 else v
+
+/-- `uint64(float64(x) * kvCacheBytesPerElement(t))`; `kvct`: 0 = f16 (default, ×2), 1 = q8_0 (×1), 2 = q4_0 (×0.5) -/
+def kvBytes (kvct : Nat) (x : Nat) : Nat :=
+  match kvct with
+  | 1 => toU64 (roundF64 x)
+  | 2 => toU64 (roundF64 x / 2)
+  | _ => toU64 (2 * roundF64 x)
+
+def GMeta.embeddingHeads (m : GMeta) : Nat := if m.heads > 0 then m.embedding / m.heads else 0
+/-- `uint64(kv.Uint("attention.key_length", uint32(kv.EmbeddingHeadCount())))` -/
+def GMeta.ehK (m : GMeta) : Nat := m.keyLen.getD (m.embeddingHeads % 4294967296)
+def GMeta.ehV (m : GMeta) : Nat := m.valLen.getD (m.embeddingHeads % 4294967296)
+
+/-- the per-layer KV figures after the architecture-specific overrides -/
+def kvOf (m : GMeta) (context batch p kvct : Nat) : List Nat :=
+  let base := kvBytes kvct (context *ᵤ (m.ehK +ᵤ m.ehV) *ᵤ m.headsKV)
+  match m.arch with
+  | .mllama =>
+    (List.range m.blocks).map fun i =>
+      if m.cross.contains i then m.headsKV *ᵤ (m.ehK +ᵤ m.ehV) *ᵤ 4 *ᵤ 1601 *ᵤ 4 else base
+  | .gemma3 =>
+    let slidingWindow := (p *ᵤ m.sliding) +ᵤ batch
+    let loc := kvBytes kvct (slidingWindow *ᵤ (m.ehK +ᵤ m.ehV) *ᵤ m.headsKV)
+    (List.range m.blocks).map fun i => if (i + 1) % 6 != 0 then loc else base
+  | _ => List.replicate m.blocks base
+
+/-- (partialOffload, fullOffload) -/
+def graphOf (m : GMeta) (context batch : Nat) : Nat × Nat :=
+  let embedding := m.embedding
+  let heads := m.heads
+  let headsKV := m.headsKV
+  let vocab := m.vocab
+  let embeddingHeads := m.embeddingHeads
+  let embeddingHeadsK := m.ehK
+  match m.arch with
+  | .llama =>
+    let full := max (4 *ᵤ batch *ᵤ (1 +ᵤ 4 *ᵤ embedding +ᵤ context *ᵤ (1 +ᵤ heads)))
+                    (4 *ᵤ batch *ᵤ (embedding +ᵤ vocab))
+    let part := 4 *ᵤ batch *ᵤ embedding +ᵤ
+      max (4 *ᵤ batch *ᵤ (1 +ᵤ embedding +ᵤ max context embedding) +ᵤ embedding *ᵤ embedding *ᵤ 9 / 16
+             +ᵤ 4 *ᵤ context *ᵤ (batch *ᵤ heads +ᵤ embeddingHeads *ᵤ headsKV))
+          (4 *ᵤ batch *ᵤ (embedding +ᵤ vocab) +ᵤ embedding *ᵤ vocab *ᵤ 105 / 128)
+    match m.ffnGateExps with
+    | some sz =>
+      (max (3 *ᵤ sz +ᵤ 4 *ᵤ batch *ᵤ (2 *ᵤ m.ff +ᵤ headsKV +ᵤ embedding +ᵤ context +ᵤ embeddingHeads *ᵤ headsKV))
+           (4 *ᵤ (context *ᵤ batch *ᵤ heads +ᵤ context *ᵤ embeddingHeads *ᵤ headsKV +ᵤ batch *ᵤ 1024
+                  +ᵤ embeddingHeads *ᵤ headsKV *ᵤ batch)), full)
+    | none =>
+      match m.ffnGate1 with
+      | some g1 =>
+        (max (4 *ᵤ batch *ᵤ (3 +ᵤ embeddingHeads *ᵤ headsKV +ᵤ embedding +ᵤ context *ᵤ (1 +ᵤ heads) +ᵤ g1)
+                +ᵤ (embedding *ᵤ embedding +ᵤ 3 *ᵤ embedding *ᵤ headsKV *ᵤ g1) *ᵤ 9 / 16)
+             (4 *ᵤ batch *ᵤ (1 +ᵤ 2 *ᵤ embedding +ᵤ context *ᵤ (1 +ᵤ heads))
+                +ᵤ embedding *ᵤ (6 *ᵤ context *ᵤ headsKV / heads +ᵤ embedding *ᵤ 9 / 16)),
+         4 *ᵤ batch *ᵤ (2 +ᵤ 3 *ᵤ embedding +ᵤ context *ᵤ (1 +ᵤ heads) +ᵤ 2 *ᵤ headsKV +ᵤ g1))
+      | none => (part, full)
+  | .mllama =>
+    (max (4 *ᵤ (batch *ᵤ (2 *ᵤ embedding +ᵤ 1 +ᵤ context *ᵤ (1 +ᵤ heads) +ᵤ embeddingHeadsK *ᵤ heads)
+                +ᵤ m.ropeFreqs +ᵤ embeddingHeadsK *ᵤ context *ᵤ headsKV))
+         (4 *ᵤ batch *ᵤ (embedding +ᵤ vocab) +ᵤ embedding *ᵤ vocab *ᵤ 105 / 128),
+     max (4 *ᵤ batch *ᵤ (2 +ᵤ 3 *ᵤ embedding +ᵤ embeddingHeadsK *ᵤ heads +ᵤ context *ᵤ (1 +ᵤ heads)))
+         (4 *ᵤ batch *ᵤ (embedding +ᵤ vocab)))
+  | .gemma | .gemma3 =>
+    (max (4 *ᵤ embedding *ᵤ batch +ᵤ embedding *ᵤ vocab *ᵤ 105 / 128 +ᵤ 4 *ᵤ vocab *ᵤ batch)
+         (4 *ᵤ batch *ᵤ (2 *ᵤ embedding +ᵤ 1 +ᵤ 2 *ᵤ embeddingHeadsK *ᵤ heads +ᵤ context +ᵤ context *ᵤ heads)
+            +ᵤ 4 *ᵤ embeddingHeadsK *ᵤ context *ᵤ 8 +ᵤ embedding *ᵤ embeddingHeadsK *ᵤ heads *ᵤ 9 / 16),
+     max (4 *ᵤ batch *ᵤ (embedding +ᵤ vocab))
+         (4 *ᵤ batch *ᵤ (2 +ᵤ context +ᵤ context *ᵤ heads +ᵤ 2 *ᵤ embedding +ᵤ 2 *ᵤ embeddingHeadsK *ᵤ heads)))
+  | .commandR =>
+    (max (4 *ᵤ batch *ᵤ (embedding +ᵤ vocab) +ᵤ embedding *ᵤ vocab *ᵤ 105 / 128)
+         (4 *ᵤ batch *ᵤ (1 +ᵤ 2 *ᵤ embedding +ᵤ context *ᵤ (1 +ᵤ heads)) +ᵤ 4 *ᵤ embedding *ᵤ context
+            +ᵤ embedding *ᵤ embedding *ᵤ 9 / 16),
+     max (4 *ᵤ batch *ᵤ (embedding +ᵤ vocab))
+         (4 *ᵤ batch *ᵤ (2 +ᵤ 4 *ᵤ embedding +ᵤ context *ᵤ (1 +ᵤ heads))))
+  | .qwen2 =>
+    (max (4 *ᵤ batch *ᵤ (embedding +ᵤ vocab) +ᵤ embedding *ᵤ vocab *ᵤ 105 / 128)
+         (4 *ᵤ (batch *ᵤ (1 +ᵤ 2 *ᵤ embedding +ᵤ context *ᵤ (1 +ᵤ heads)) +ᵤ embedding *ᵤ (1 +ᵤ context))),
+     max (4 *ᵤ batch *ᵤ (embedding +ᵤ vocab))
+         (4 *ᵤ batch *ᵤ (1 +ᵤ 2 *ᵤ embedding +ᵤ context +ᵤ context *ᵤ heads)))
+  | .phi2 =>
+    (max (4 *ᵤ batch *ᵤ (2 *ᵤ embedding +ᵤ vocab) +ᵤ embedding *ᵤ vocab *ᵤ 105 / 128)
+         (4 *ᵤ batch *ᵤ (2 +ᵤ 3 *ᵤ embedding +ᵤ context +ᵤ context *ᵤ heads)),
+     max (4 *ᵤ batch *ᵤ (embedding +ᵤ vocab))
+         (4 *ᵤ batch *ᵤ (1 +ᵤ 4 *ᵤ embedding +ᵤ context +ᵤ context *ᵤ heads)))
+  | .stablelm =>
+    let full := 4 *ᵤ batch *ᵤ (context *ᵤ (1 +ᵤ heads) +ᵤ 3 *ᵤ embedding +ᵤ 2)
+    (max (4 *ᵤ batch *ᵤ (vocab +ᵤ 2 *ᵤ embedding)) full, full)
+  | .deepseek2 =>
+    (max (4 *ᵤ batch *ᵤ (3 *ᵤ embedding +ᵤ vocab) +ᵤ embedding *ᵤ vocab *ᵤ 105 / 128)
+         (4 *ᵤ batch *ᵤ (2 *ᵤ embedding +ᵤ 1 +ᵤ 2 *ᵤ embeddingHeadsK *ᵤ headsKV +ᵤ context +ᵤ context *ᵤ headsKV)
+            +ᵤ 4 *ᵤ embeddingHeadsK *ᵤ context *ᵤ headsKV +ᵤ embedding *ᵤ embeddingHeadsK *ᵤ headsKV *ᵤ 9 / 16),
+     max (4 *ᵤ batch *ᵤ (3 *ᵤ embedding +ᵤ vocab))
+         (4 *ᵤ batch *ᵤ (3 *ᵤ embedding +ᵤ 2 +ᵤ context *ᵤ (1 +ᵤ headsKV) +ᵤ 2 *ᵤ embeddingHeadsK *ᵤ headsKV)))
+  | .chatglm =>
+    let full := 4 *ᵤ batch *ᵤ (embedding +ᵤ vocab)
+    let part := 4 *ᵤ batch *ᵤ (embedding +ᵤ vocab) +ᵤ embedding *ᵤ vocab *ᵤ 105 / 128
+    match m.qkvBias with
+    | some qb =>
+      (max part (4 *ᵤ batch *ᵤ (1 +ᵤ 2 *ᵤ embedding +ᵤ embeddingHeadsK *ᵤ heads +ᵤ context +ᵤ context *ᵤ heads)
+                  +ᵤ 4 *ᵤ embeddingHeadsK *ᵤ context +ᵤ 4 *ᵤ context *ᵤ embeddingHeadsK +ᵤ 4 *ᵤ qb),
+       max full (4 *ᵤ batch *ᵤ (2 +ᵤ 2 *ᵤ embedding +ᵤ context +ᵤ context *ᵤ heads +ᵤ embeddingHeadsK *ᵤ heads +ᵤ qb)))
+    | none => (part, full)
+  | .other => (0, 0)
+
+/-- `GGML.GraphSize(context, batch, numParallel, kvCacheType)` = (kv, partialOffload, fullOffload) -/
+def graphSize (m : GMeta) (context batch p kvct : Nat) : List Nat × Nat × Nat :=
+  (kvOf m context batch p kvct, (graphOf m context batch).1, (graphOf m context batch).2)
+
 end OllamaVerif.Memory
